@@ -78,6 +78,11 @@ pub fn cli_crypt(ctx: &mut Ctx) {
             std::fs::write(sbx.path(&name), &content).unwrap();
             files.push((name, content));
         }
+        // every third tree holds two names of one file (hard link): each name is its own entry and its own encrypted stream
+        if case % 3 == 1 {
+            let name = format!("t/second-name-{tag}.bin");
+            if std::fs::hard_link(sbx.path(&files[0].0), sbx.path(&name)).is_ok() { let c = files[0].1.clone(); files.push((name, c)); ctx.count("tree:hard-linked-file"); }
+        }
         let base = ["correct horse", "Pässwörd-7", "p4ss w0rd!", "secret\tTab", "x-y-z-1-2-3"][rng.gen_range(0..5)].to_string();
         let pw_w: String = match case % 6 { 0 => format!("{base}\n"), 1 => format!("{base} "), 2 => format!("{base}\r\n"), _ => base.clone() };
         let chan_w = if case % 2 == 0 { "file" } else { "arg" };
@@ -123,6 +128,16 @@ pub fn cli_crypt(ctx: &mut Ctx) {
                 Ok(ss) => {
                     if ss.is_empty() { ctx.violation("C08", "`pna` was given a password but wrote no encrypted stream", json!({"case":attrs,"stage":stage})); }
                     let mut keys_checked = BTreeSet::new();
+                    // within one archive every stream is a different entry or block: no two may share a salt or an IV, even
+                    // when their cipher texts are equal (equal cipher text under one key/IV also tells which entries are identical)
+                    for (i, a) in ss.iter().enumerate() {
+                        if let Some(b) = ss[..i].iter().find(|b| b.0 == a.0 || b.1 == a.1) {
+                            if !*dup_reported {
+                                ctx.violation("C08", "two encrypted streams of one archive share a salt or an IV", json!({"case":attrs,"stage":stage,"salt":a.0,"iv":hex(&a.1),"other_salt":b.0,"other_iv":hex(&b.1),"same_cipher_text":a.2 == b.2}));
+                                *dup_reported = true;
+                            }
+                        }
+                    }
                     for (salt, iv, dig, _solid, phsf) in ss {
                         if refdec::parse_phc(&phsf).map(|p| p.hash.is_some()).unwrap_or(false) { ctx.violation("C08", "PHSF chunk contains the derived key (hash field present)", json!({"case":attrs,"stage":stage,"phsf":phsf})); }
                         if keys_checked.insert(phsf.clone()) && keys_checked.len() <= 3 {
